@@ -181,7 +181,16 @@ func checkHistory(evs []hEvent, localPath string) []string {
 func c08Stmt(r *rand.Rand, pi int, used *[]int) *jen.Statement {
 	q := jen.Qual(c08Paths[pi], fmt.Sprintf("Sym%dX", pi))
 	n := r.Intn(1e6)
-	switch r.Intn(9) {
+	switch r.Intn(10) {
+	case 9:
+		// untyped nil items in front of and between real ones, in several kinds of group
+		return jen.Func().Id(fmt.Sprintf("F_%d", n)).Params(nil, jen.Id("a").Int(), nil, jen.Id("b").Int()).Block(
+			nil,
+			jen.Id("_").Op("=").Id("g").Call(nil, q, nil, jen.Lit(1), jen.Null(), jen.Lit(2)),
+			nil,
+			jen.Id("_").Op("=").Index().Int().Values(nil, jen.Lit(3), q.Clone()),
+			jen.Return(),
+		)
 	case 0:
 		return jen.Var().Id(fmt.Sprintf("V_%d", n)).Op("=").Add(q)
 	case 1:
